@@ -9,12 +9,15 @@
 EXTENDS Expr
 
 CONSTANTS MaxNodes,
+          KeepHist,         \* TRUE: remember the calls made so far (histories interleaving registration and calls)
+          MaxHist,          \* with KeepHist: number of calls in a history
+          LateRegister,     \* TRUE: overloads may be registered between calls
           RequireComplete   \* TRUE: calls only on graphs in which every node is used (exhaustive runs)
 
-VARIABLES phase, cur, want, act
+VARIABLES phase, cur, want, hist, act
 
-lvars == <<nodes, tabs, phase, cur, want, act>>
-labs == <<nodes, tabs, phase, cur, want>>
+lvars == <<nodes, tabs, phase, cur, want, hist, act>>
+labs == <<nodes, tabs, phase, cur, want, hist>>
 NoDict == [t |-> "a"]
 
 Root == Len(nodes)
@@ -51,6 +54,7 @@ Complete ==
     /\ \A i \in 1 .. Len(nodes) - 1 :
           \/ \E j \in i + 1 .. Len(nodes) : i \in ChildrenOf(nodes[j])
           \/ \E t \in DOMAIN tabs : \E e \in 1 .. Len(tabs[t]) : tabs[t][e].n = i
+          \/ (LateRegister /\ nodes[i].k \in {"val", "fnapp"} /\ ChildrenOf(nodes[i]) = {})   \* a spare implementation
 
 LInit ==
     /\ nodes = <<>>
@@ -58,6 +62,7 @@ LInit ==
     /\ phase = "build"
     /\ cur = NoDict
     /\ want = "none"
+    /\ hist = <<>>
     /\ act = [a |-> "Init"]
 
 \* construction, step 1: decide which kind of node comes next (a separate cheap step: random
@@ -65,7 +70,7 @@ LInit ==
 Choose(k) ==
     /\ phase = "build" /\ Len(nodes) < MaxNodes /\ cur = NoDict /\ want = "none"
     /\ want' = k
-    /\ UNCHANGED <<nodes, tabs, phase, cur>>
+    /\ UNCHANGED <<nodes, tabs, phase, cur, hist>>
     /\ act' = [a |-> "Choose"]
 
 \* construction, step 2: nd is a well-formed node over the existing ones (the MC module says which)
@@ -74,7 +79,7 @@ Add(nd) ==
     /\ want' = "none"
     /\ nodes' = Append(nodes, nd)
     /\ tabs' = IF nd.k = "ds" /\ nd.tab = Len(tabs) + 1 THEN Append(tabs, <<>>) ELSE tabs
-    /\ UNCHANGED <<phase, cur>>
+    /\ UNCHANGED <<phase, cur, hist>>
     /\ act' = [a |-> "Add", id |-> Len(nodes) + 1, nd |-> nd]
 
 \* dataset.register(alias, impl) / @dataset.overload(alias): at any time
@@ -86,6 +91,8 @@ Register(d, alias, impl) ==
                    THEN [e \in 1 .. Len(@) |-> IF @[e].v = alias THEN [v |-> alias, n |-> impl] ELSE @[e]]
                    ELSE Append(@, [v |-> alias, n |-> impl])]
     /\ cur = NoDict /\ want = "none"
+    /\ (phase = "calls" => LateRegister)
+    /\ hist' = IF phase = "calls" THEN Append(hist, [a |-> "Register", d |-> d, alias |-> alias, impl |-> impl]) ELSE hist
     /\ UNCHANGED <<nodes, phase, cur, want>>
     /\ act' = [a |-> "Register", d |-> d, alias |-> alias, impl |-> impl]
 
@@ -93,8 +100,9 @@ Register(d, alias, impl) ==
 \* does not have to evaluate the semantics under every dictionary to pick one)
 Pick(o) ==
     /\ (RequireComplete => Complete) /\ nodes # <<>> /\ cur = NoDict /\ want = "none"
+    /\ (KeepHist => Cardinality({i \in 1 .. Len(hist) : hist[i].a = "Observe"}) < MaxHist)
     /\ cur' = o
-    /\ UNCHANGED <<nodes, tabs, phase, want>>
+    /\ UNCHANGED <<nodes, tabs, phase, want, hist>>
     /\ act' = [a |-> "Pick"]
 
 \* the four public calls on the root under the chosen dictionary, observed together
@@ -103,6 +111,7 @@ Observe ==
     /\ cur # NoDict
     /\ cur' = NoDict
     /\ phase' = "calls"
+    /\ hist' = IF KeepHist THEN Append(hist, [a |-> "Observe", o |-> o, eval |-> Eval(Root, o)]) ELSE hist
     /\ UNCHANGED <<nodes, tabs, want>>
     /\ act' = [a |-> "Observe", n |-> Root, o |-> o,
                eval |-> Eval(Root, o), validate |-> Validate(Root, o),
@@ -112,7 +121,7 @@ Observe ==
                permit |-> Permit(Root, o),
                swallows |-> Swallows(Root, o) \/ LET k == KeysOf(Root, o) IN k.ok /\ Swallows(Root, Restrict(o, k.ks)),
                visited |-> {x.n : x \in Visit(Root, o)} \cup {BaseOf(x.n) : x \in Visit(Root, o)},
-               raises |-> Raises,
+               raises |-> Raises, hist |-> hist,
                overlay |-> LET r == NodeRec(Root) IN
                            IF r.k = "with" THEN Overlay(r, o) ELSE IF r.k = "ds" THEN DsOptions(r, o) ELSE o]
 
